@@ -56,6 +56,19 @@ func coResume(L *LState) int {
 		L.Push(LString(msg))
 		return 2
 	}
+	for p := L; p != nil; p = p.Parent {
+		if p.Parent == th {
+			// th is waiting for the running coroutine (directly or not) to yield
+			msg := "can not resume a non-suspended thread"
+			if th.wrapped {
+				L.RaiseError(msg)
+				return 0
+			}
+			L.Push(LFalse)
+			L.Push(LString(msg))
+			return 2
+		}
+	}
 	if th.Dead {
 		msg := "can not resume a dead thread"
 		if th.wrapped {
